@@ -44,7 +44,16 @@ def plan(cases, c, rnd):
         else:
             seen.add(s)
             first.append(i)
-    return [(i, 0) for i in first + rest]
+    # two stratum representatives, then one case picked at random, and so on: the strata give breadth over
+    # (field type, class), the random picks give breadth over stages and messages when the budget is short
+    order, a, b = [], 0, 0
+    while a < len(first) or b < len(rest):
+        order += first[a:a + 2]
+        a += 2
+        if b < len(rest):
+            order.append(rest[b])
+            b += 1
+    return [(i, 0) for i in order]
 
 
 def run(c):
@@ -54,6 +63,9 @@ def run(c):
     r = c.mc_holds("ProtocolStages", cfg_text(constants=both, invariants=["FailureClassAllowed", "TypeOK", "Emit"]),
                    name="stage machine, both roles: every failure surfaces an allowed class; emits the cases", workers=1)
     cases = parse_cases(r.printed("CASE"), r.printed("GRAMMAR"))
+    suites = r.printed("CIPHERS")
+    if len(suites) != 1 or set(suites[0][1]) != set(rb.CIPHER_SUITES):
+        raise Machinery("cipher suites of the spec %r and of the driver %r differ" % (suites, sorted(rb.CIPHER_SUITES)))
     if len(cases) < 3000 or len({rb.case_key(k) for k in cases}) != len(cases):
         raise Machinery("TLC emitted %d cases (%d distinct)" % (len(cases), len({rb.case_key(k) for k in cases})))
     # the sensitivity run (Guarded = FALSE must violate the invariant) overlaps with the driving phase
